@@ -157,6 +157,7 @@ fn main() {
                 "drain" => Flavor::Drain,
                 "zone" => Flavor::Zone,
                 "lower" => Flavor::LowerSearch,
+                "recov" => Flavor::Recover,
                 _ => Flavor::Mixed,
             };
             let dense = args.iter().any(|a| a == "--dense");
